@@ -54,6 +54,17 @@ def run(ck):
                   "rule": "detection: {A: {f: x, n: {g: y}}, B: {h: '*z*'}, condition: A or B}\n"
                           "true_positives: [{f: !t x, n: !u {g: !v y}}, {h: [!w az, b]}, {f: x, n: [!t {g: y}]}]\n"
                           "true_negatives: [{f: !t y}, {h: !t [q]}, {n: !t 5}]", "_tp": [0, 1, 2], "_tn": [0, 1, 2]})
+    # examples that are equal as YAML values (serde_yaml's Eq / Hash) or nearly so, but not for the
+    # solver: signed float zeros under str(), 1 vs 1.0, repeated examples, the same example in both lists
+    pairs = [("str(x): '0'", "{x: 0.0}", "{x: -0.0}"), ("str(x): '-*'", "{x: -0.0}", "{x: 0.0}"), ("x: 1", "{x: 1}", "{x: 1.0}"),
+             ("str(x): '1'", "{x: 1}", "{x: 1.0}"), ("x: '=1.0'", "{x: 1.0}", "{x: 1}"), ("str(x): 'true'", "{x: true}", "{x: 'true'}"),
+             ("x: foo", "{x: foo}", "{x: foo}"), ("int(x): 0", "{x: 0.0}", "{x: -0.0}"), ("x: ~", "{x: ~}", "{x: null}")]
+    for body, e1, e2 in pairs:
+        for tp_txt, tn_txt in (("[%s, %s]" % (e1, e2), "[]"), ("[%s]" % e1, "[%s]" % e2), ("[]", "[%s, %s]" % (e1, e2)),
+                               ("[%s, %s, %s]" % (e2, e1, e2), "[%s]" % e1)):
+            cases.append({"k": "rule", "id": ck.new_id(), "sw": [0], "docs": [], "validate": True, "vsw": [0, 15],
+                          "rule": "detection: {A: {%s}, condition: A}\ntrue_positives: %s\ntrue_negatives: %s\n" % (body, tp_txt, tn_txt),
+                          "_tp": [0], "_tn": [0]})
     send = rulebase.wire(cases)
     impl, model, _ = lib.run_cases(send, "C13")
     direct_failed = set()
